@@ -178,7 +178,7 @@ func c14One(c *Ctx, v int, its, itr uint32, data []byte, size int, isBig bool) {
 		return
 	}
 	// the model evaluates big cases too, but keep the case files small: only a sample of the big ones
-	if !isBig || len(data) <= 70000 && c.R.Chance(1, 3) {
+	if !isBig || len(pieces) <= 3000 && c.R.Chance(1, 3) { // (a literal list of tens of thousands of pieces is beyond Coq's parser)
 		c.AddCase(61, "fragment", out, N(v), NU(uint64(its)), NU(uint64(itr)), B(data), N(size))
 	} else {
 		c.Rep.Evaluations++
